@@ -1,3 +1,4 @@
+pub mod runloop;
 pub mod world;
 
 use crate::common::*;
@@ -68,6 +69,19 @@ pub fn run_one(engine: &str, seed: u64, ctx: &mut Ctx) -> OneResult {
                 counts: ex.counts,
             }
         }
+        "runloop" => {
+            let sweep = if ctx.tier == "thorough" { 256 } else { 64 };
+            let (stats, found, sample) = runloop::run_program(seed, &mut ctx.iset, &ctx.names, sweep);
+            OneResult {
+                violations: found
+                    .into_iter()
+                    .map(|(v, sc)| (v, serde_json::to_value(&sc).unwrap()))
+                    .collect(),
+                stats,
+                counts: vec![],
+                sample,
+            }
+        }
         _ => panic!("unknown engine {}", engine),
     }
 }
@@ -78,6 +92,10 @@ pub fn replay_one(engine: &str, scenario: &Value, ctx: &mut Ctx) -> Vec<Violatio
             let sc: world::WorldSc = serde_json::from_value(scenario.clone()).expect("world scenario");
             world::execute(&sc, &mut ctx.iset, &ctx.names, Envelope::standard()).violations
         }
+        "runloop" => {
+            let sc: runloop::RunloopSc = serde_json::from_value(scenario.clone()).expect("runloop scenario");
+            runloop::execute(&sc, &mut ctx.iset, &ctx.names).violations
+        }
         _ => panic!("unknown engine {}", engine),
     }
 }
@@ -85,6 +103,7 @@ pub fn replay_one(engine: &str, scenario: &Value, ctx: &mut Ctx) -> Vec<Violatio
 pub fn scenario_of(engine: &str, seed: u64, ctx: &mut Ctx) -> Value {
     match engine {
         "world" => serde_json::to_value(world::generate(seed, &ctx.names)).unwrap(),
+        "runloop" => serde_json::to_value(runloop::generate(seed, &ctx.names)).unwrap(),
         _ => panic!("unknown engine {}", engine),
     }
 }
